@@ -154,13 +154,53 @@ func (it *Interp) fmtScalar(t types.Type, v Value, verb byte) []*Term {
 func (it *Interp) sprintf(fr *frame, format Str, args []Value) Str {
 	f, ok := format.concrete()
 	if !ok {
-		// symbolic format string: splice as-is (no verbs can be recognised)
-		return format
+		// a format with symbolic bytes (request text that reached a Printf-style call): decide per byte
+		// whether it is a '%' (forking on it); a symbolic verb is made concrete by forking over its values
+		buf := make([]byte, len(format.b))
+		lit := make([]*Term, len(format.b)) // symbolic bytes known not to be '%' keep their term
+		for i := 0; i < len(format.b); i++ {
+			t := format.b[i]
+			if t.Op == OpConst {
+				buf[i] = byte(t.Val)
+				continue
+			}
+			if it.prevIsOpenPercent(buf, lit, i) {
+				buf[i] = byte(it.concretize(t, 256))
+				continue
+			}
+			if it.branch(it.tt.Eq(t, it.tt.Const(8, '%'))) {
+				buf[i] = '%'
+			} else {
+				buf[i] = 'x' // placeholder: an ordinary character, emitted from lit
+				lit[i] = t
+			}
+		}
+		res := it.sprintfConcrete(fr, string(buf), lit, args)
+		return res
 	}
+	return it.sprintfConcrete(fr, f, nil, args)
+}
+
+// prevIsOpenPercent: the byte before position i is a '%' that starts a verb (not the second half of "%%").
+func (it *Interp) prevIsOpenPercent(buf []byte, lit []*Term, i int) bool {
+	n := 0
+	for j := i - 1; j >= 0 && buf[j] == '%' && lit[j] == nil; j-- {
+		n++
+	}
+	return n%2 == 1
+}
+
+// sprintfConcrete formats with a concrete format string; lit[i] != nil marks a position whose
+// character is an ordinary (non-'%') symbolic byte to be copied through.
+func (it *Interp) sprintfConcrete(fr *frame, f string, lit []*Term, args []Value) Str {
 	var out []*Term
 	ai := 0
 	for i := 0; i < len(f); i++ {
 		c := f[i]
+		if lit != nil && lit[i] != nil {
+			out = append(out, lit[i])
+			continue
+		}
 		if c != '%' {
 			out = append(out, it.tt.bytes[c])
 			continue
